@@ -266,6 +266,9 @@ func dischargeAll(obls []*Obl, dir string, timeoutS int, all bool, workers int) 
 }
 
 func dischargeOne(o *Obl, dir string, timeoutS int, all bool) {
+	if o.Status == "unsat" && strings.HasPrefix(o.Solver, "syntactic") {
+		return
+	}
 	fn := filepath.Join(dir, fileSafe.ReplaceAllString(o.Name, "_")+".smt2")
 	o.File = fn
 	txt := o.smt(nil)
